@@ -806,6 +806,70 @@ def run_extend(case, ctx):
     U.ts_genotypes(ctx, model, out, spec, W + ".ts")
 
 
+# ------------------------------------------------------------------ extend_haplotypes on ladder shapes
+def ladder_spec(K, blocked, mirror):
+    """Samples 0,1,2; n (t=1) unary on p->n->0 in the first tree only and extendable across the K following trees
+    (sample 1 alternates between p and q so that consecutive trees differ); optionally blocked in the last tree.
+    One site per tree with two known-time mutations above sample 0."""
+    W = 5.0
+    T = K + 2
+    L = T * W
+    n, p_, q = 3, 4, 5
+    nodes = [[1, 0.0, -1, -1, ""] for _ in range(3)] + [[0, 1.0, -1, -1, ""], [0, 2.0, -1, -1, ""], [0, 3.0, -1, -1, ""]]
+    edges = []
+
+    def E(left, right, parent, child):
+        if mirror:
+            left, right = L - right, L - left
+        edges.append([left, right, parent, child, "e%d" % len(edges)])
+
+    E(0, W, n, 0)
+    E(0, W, p_, n)
+    E(W, L, p_, 0)
+    start, cur = 0.0, p_
+    for j in range(1, T):
+        nxt = p_ if (j % 2 == 1) else q
+        if nxt != cur:
+            E(start, j * W, cur, 1)
+            start, cur = j * W, nxt
+    E(start, L, cur, 1)
+    if blocked:
+        E(0, L - W, q, 2)
+        E(L - W, L, n, 2)
+        E(L - W, L, q, n)
+    else:
+        E(0, L, q, 2)
+    E(0, L, q, p_)
+    times = [nd[1] for nd in nodes]
+    edges.sort(key=lambda e: (times[e[2]], e[2], e[3], e[0]))
+    xs = sorted((L - (j * W + 2)) if mirror else (j * W + 2) for j in range(T))
+    sites = [[x, "A", "s%d" % j] for j, x in enumerate(xs)]
+    spec = dict(L=L, nodes=nodes, edges=edges, sites=sites, mutations=[], individuals=[], populations=[], migrations=[])
+    muts = []
+    for j in range(T):
+        par = model.parent_at(spec, sites[j][0])
+        # the older mutation sits on the branch below p: on n where n is in the tree, else on sample 0
+        top = n if par[0] == n else 0
+        muts.append([j, top, "T", -1, 1.5, "m%d" % j])
+        muts.append([j, 0, "G", len(muts) - 1, 0.5, ""])
+    spec["mutations"] = muts
+    return spec
+
+
+def enum_ladder(tier, seed):
+    for K in ([1, 2, 3, 4] if tier == "quick" else [1, 2, 3, 4, 5, 8, 13]):
+        for blocked in (False, True):
+            for mirror in (False, True):
+                for mi in (10, 1, 2):
+                    yield dict(K=K, blocked=blocked, mirror=mirror, max_iter=mi)
+
+
+def run_ladder(case, ctx):
+    spec = ladder_spec(case["K"], case["blocked"], case["mirror"])
+    run_extend(dict(spec=spec, max_iter=case["max_iter"], default=False), ctx)
+    ctx.nt(True)
+
+
 SUBCHECKS = [
     SubCheck("C11.intervals", run_intervals, strategy=intervals_case, quick=1500, thorough=45000,
              rule="an interval end strictly inside an edge, or a site exactly on an interval end, or a row with "
@@ -830,6 +894,9 @@ SUBCHECKS = [
     SubCheck("C11.extend_haplotypes", run_extend, strategy=extend_case, quick=1500, thorough=45000,
              rule="the edge table changed", classify=classify_extend,
              floors={"edges_changed": 0.2, "mutation_node_changed": 0.012, "known_mut_times": 0.2}),
+    SubCheck("C11.extend_ladders", run_ladder, enumerate=enum_ladder, quick=1, thorough=1,
+             rule="ladder tree sequences in which a unary node can be extended across 1-4 (thorough: 13) following trees, "
+                  "blocked or not, mirrored or not: passes that only move edge endpoints occur"),
 ]
 
 # minimal reproducer of the open finding: sample 0 under n=1 under p=2 on [0, 0.5), directly under p on
